@@ -1112,12 +1112,26 @@ def _short(x):
 
 # ----------------------------------------------------------------------------- reference
 
+def _plan_fix(cs, near=False):
+    """a case with a unit plan is a crystal in Angstrom numbers (lk = 0); narrow float forms ROUND the vector handed in (the
+    rounded vector is the input): not where the same physical input is to be given in two unit systems, nor where the value is a
+    near-threshold one"""
+    f = cs['disl'].get('forms')
+    if cs.get('units'):
+        cs['disl']['lk'] = 0
+    if f and (cs.get('units') or near):
+        for k in ('sh', 'cen'):
+            if f[k] in ('f32', 'f16'):
+                f[k] = 'strided'
+        if f['sc'] == 'np_float32':
+            f['sc'] = 'np_float64'
+    return cs
+
+
 @st.composite
 def reference_cases(draw):
     cs = {'disl': draw(g.dislocations()), 'size': draw(g.sizes()), 'units': draw(g._PLANS)}
-    if cs['units']:
-        cs['disl']['lk'] = 0
-    return cs
+    return _plan_fix(cs)
 
 
 def check_shifts(c, d):
@@ -1212,8 +1226,7 @@ def with_classes(draw, cs):
     cs['lm'] = draw(g._AFTERS)
     cs['units'] = draw(g._PLANS)
     nr = draw(g._NEARS)
-    if cs['units']:
-        cs['disl']['lk'] = 0
+    _plan_fix(cs, bool(nr))
     if not nr:
         return cs
     cs['near'] = nr
@@ -1466,6 +1479,42 @@ def overlap_violation(c, q, qi, r_ov, cutoff, bp, vects, origin, bm):
     raise Violation(detail, key=key)
 
 
+def own_duplicate_count(c, exp, center, cutoff, bm, L):
+    """(number of atoms of the full reference system that have a later atom within `cutoff` once the linear field is applied and
+    the in-plane box vector is tilted by b/2, whether these pairs are disjoint and well inside the cutoff / every other pair well
+    outside)"""
+    from scipy.spatial import cKDTree
+    d = c.d
+    tup = [(0, exp[i]) if i == c.line else (-(exp[i] // 2), exp[i] // 2) for i in range(3)]
+    full = d.rcell.supersize(*tup)
+    full.atoms.pos += c.shift
+    full.wrap()
+    fp = np.array(full.atoms.pos, dtype=float)
+    vects, origin = expected_box(c, exp)
+    q = fp + my_linear(fp - center, c.b, L, c.m_ax, c.n_ax)
+    out = None
+    for sgn in ((1.0,) if bm > 1e-9 * c.bmag else (-1.0,) if bm < -1e-9 * c.bmag else (1.0, -1.0)):
+        v1, v2 = vects[c.line], vects[c.motion] - sgn * c.b / 2
+        qi = images_2d(q, v1, v2)
+        N = len(q)
+        tree = cKDTree(qi)
+        hits = tree.query_ball_point(q, 1.5 * cutoff)
+        first, clear = set(), True
+        for i, lst in enumerate(hits):
+            for j in lst:
+                jj = j % N
+                if jj == i and j // N == 4:
+                    continue
+                dist = float(np.linalg.norm(qi[j] - q[i]))
+                if dist < cutoff:
+                    first.add(min(i, jj))
+                if 0.75 * cutoff < dist:
+                    clear = False               # a pair near the cutoff: rounding may decide
+        res = (len(first), clear)
+        out = res if out is None or res[0] < out[0] else out
+    return out
+
+
 def run_array(c, case, labels, cap=CAP):
     """calls periodicarray for the case.  Returns None on a documented refusal (labels updated), else a dict."""
     d = c.d
@@ -1519,6 +1568,15 @@ def run_array(c, case, labels, cap=CAP):
                     require(mm is not None, lambda: 'unparsable refusal: ' + msg)
                     require(int(mm.group(1)) == int(round(nrem)) and frac <= 1e-4 * max(1.0, nrem),
                             lambda: 'refusal %r, but the edge component implies N |b.m| / (2 L) = %.9g deletions (N=%d, b.m=%.9g, L=%.9g)' % (msg, nrem, nfull, bm, L))
+                    # ... and "found" must be what a search at the stated cutoff finds (D: the default is 0.5 Angstrom whatever
+                    # the working units): my own search over ALL atoms of the reference system under the linear field and the
+                    # new in-plane periodicity; when it finds exactly the expected number, each atom paired once, the tool had
+                    # no reason to give up
+                    mine = own_duplicate_count(c, exp, center, cutoff, bm, L)
+                    require(mine is None or mine[0] != int(round(nrem)) or not mine[1],
+                            lambda: 'refusal %r, but a search over all atoms at the cutoff %.6g (%s) finds exactly the %d duplicates, every pair '
+                            'within 3/4 of the cutoff and nothing else within 3/2 of it' % (msg, cutoff, 'given' if 'cutoff' in kw else 'the documented default, 0.5 Angstrom', mine[0]))
+                    labels.add('refusal_mismatch_explained')
                 return None
         raise
     require(frac <= 1e-4 * max(1.0, nrem), lambda: 'N |b.m| / (2 L) = %.9g is not an integer, yet a configuration was returned (N=%d)' % (nrem, nfull))
@@ -1592,12 +1650,17 @@ def _oracle_array(case, out):
     require(np.all(np.diff(oid) > 0) and oid.min() >= 0 and oid.max() < nfull, 'old_id is not strictly increasing within the reference range')
     bp = np.array(base.atoms.pos, dtype=float)
     rb, _ = reduce_mod(bp - fp[oid], vects)       # the same sites; an atom on a box face may be kept on either face
-    # E: with an atom a relative < 1e-8 (of the system) short of an upper in-plane face, periodicarray's documented-in-code clean-up
-    # ("atoms left on an upper box face by rounding belong to the lower face", isclose at 1e-8 box-relative) moves it onto the lower
-    # face: by at most 1e-8 box vectors.  Only then the comparison is widened by what that tolerance explains
-    nrf = (case.get('near') or {}).get('face')
-    slack = 1.01e-8 * max(float(np.linalg.norm(vects[c.line])), float(np.linalg.norm(vects[c.motion]))) if nrf and min(abs(x) for x in nrf) < 1e-7 else 0.0
-    require(np.abs(rb).max() <= 1e-9 * (c.s + np.abs(fp).max()) + slack, lambda: 'returned base system is not the reference system at old_id (max difference %.3g modulo the box)' % np.abs(rb).max())
+    # E: with an atom a relative < 1e-8 (of the system) short of an upper box face (an in-plane shift a hair below a whole cell, a
+    # single precision shift vector), periodicarray's clean-up - in the code: "atoms left on an upper box face by rounding belong
+    # to the lower face", isclose at 1e-8 box-relative - moves it onto the lower face: by at most 1e-8 box vectors.  Only then the
+    # comparison is widened by what that tolerance explains
+    srel = cm.rel_coords(fp, vects, origin)[oid]
+    gapf = 1.0 - srel
+    slack = (np.where(gapf < 2e-8, gapf, 0.0) * np.linalg.norm(vects, axis=1)[None, :]).sum(axis=1) * 1.01
+    if slack.max() > 1e-9 * c.s:
+        labels.add('face_cleanup')
+    exc = np.abs(rb).max(axis=1) - slack
+    require(exc.max() <= 1e-9 * (c.s + np.abs(fp).max()), lambda: 'returned base system is not the reference system at old_id (max difference %.3g modulo the box)' % np.abs(rb).max())
     require(np.array_equal(np.array(base.atoms.atype), ft[oid]), 'returned base atom types differ from the reference at old_id')
     probs = crystal_problems(c, bp, np.array(base.atoms.atype), c.shift)
     require(not probs, lambda: 'returned base system: ' + '; '.join(probs))
@@ -1705,9 +1768,7 @@ def disreg_cases(draw):
     cs['size']['motion'] = max(cs['size']['motion'], 4)
     cs['size'].pop('min', None)
     cs['units'] = draw(g._PLANS)
-    if cs['units']:
-        cs['disl']['lk'] = 0
-    return cs
+    return _plan_fix(cs)
 
 
 def tail_prefactors(c):
@@ -2121,22 +2182,22 @@ SCALE_SHARE = {'scaled': 0.075, 'scaled_large': 0.05, 'scaled_small': 0.02, 'nt_
 SOLVER_SHARE = {'solver_refused': 0.02}
 
 CLAUSES = [
-    Clause('reference', oracle_reference, reference_cases, quick=1200, thorough=24000,
+    Clause('reference', oracle_reference, reference_cases, quick=1000, thorough=24000,
            min_share=dict({'nt': 0.04, 'frame_ok': 0.2, 'hcp': 0.01, 'mn_cyclic': 0.08}, **SCALE_SHARE), max_share=SOLVER_SHARE,
            desc='rcell/uvws/transform/shifts and the reference system: the unit cell crystal rotated by transform, shifted, filling the box once'),
-    Clause('monopole', oracle_monopole, monopole_cases, quick=1800, thorough=36000,
+    Clause('monopole', oracle_monopole, monopole_cases, quick=1000, thorough=36000,
            min_share={'nt': 0.06, 'bd_mixed': 0.12, 'bd_cylinder': 0.06, 'bd_box': 0.06, 'center_scaled': 0.03, 'center_abs': 0.05,
                       'wrapped_along_line': 0.15, 'history_second_call': 0.24, 'history_ctor_shift_differs': 0.08,
                       'history_shift_changes': 0.15, 'history_other_generator': 0.08, 'explicit_shiftindex0': 0.15,
                       'explicit_shiftindex0_stale': 0.08, **SCALE_SHARE}, max_share=SOLVER_SHARE,
            desc='monopole: all reference atoms kept, displaced by the solution at (reference position - centre), periodic along the line only, boundary atoms re-typed exactly outside the box / cylinder region'),
-    Clause('array', oracle_array, array_cases, quick=1800, thorough=36000,
+    Clause('array', oracle_array, array_cases, quick=1000, thorough=36000,
            min_share={'nt': 0.06, 'removed': 0.15, 'interior': 0.12, 'band': 0.07, 'linear': 0.06, 'history_second_call': 0.25,
                       'history_ctor_shift_differs': 0.07, 'history_shift_changes': 0.15, 'history_other_generator': 0.1,
                       'explicit_shiftindex0': 0.16, 'explicit_shiftindex0_stale': 0.08, **SCALE_SHARE},
            max_share=dict({'refusal': 0.25}, **SOLVER_SHARE),
            desc='periodic array: deletion count from the edge component, deleted atoms are duplicates, no overlap in-plane, old_id maps back, linear / solution displacement re-derived, pbc and box'),
-    Clause('disregistry', oracle_disregistry, disreg_cases, quick=1000, thorough=20000,
+    Clause('disregistry', oracle_disregistry, disreg_cases, quick=800, thorough=20000,
            min_share=dict({'nt': 0.05, 'tail': 0.12, 'exact_linear': 0.03, 'bookkeeping': 0.15, 'tripled': 0.01}, **SCALE_SHARE),
            max_share=dict({'refusal': 0.25}, **SOLVER_SHARE),
            desc='disregistry across the slip plane accumulates to b up to the analytic tail bound (exactly b (x_hi-x_lo)/L for the linear field); error shrinks when the width is tripled'),
@@ -2144,6 +2205,6 @@ CLAUSES = [
            desc='H: constructor shift choice x earlier call (generator x shift choice) x judged generator x shift choice, enumerated; judged by the monopole / array oracles'),
     Clause('options_size', oracle_options, enumerate=options_size_cases, nontrivial=lambda labels: 'min_raised_mult' in labels or 'default_sizemults' in labels,
            desc='H: sizemults absent / list / tuple x every subset of amin, bmin, cmin x line along a, b, c; boundary shape / width / scale x centre / centerscale pairs; enumerated'),
-    Clause('sizemults', oracle_sizemults, sizemults_cases, quick=400, thorough=4000, min_share={'monopole': 0.1, 'scaled': 0.075}, max_share=SOLVER_SHARE,
+    Clause('sizemults', oracle_sizemults, sizemults_cases, quick=300, thorough=4000, min_share={'monopole': 0.1, 'scaled': 0.075}, max_share=SOLVER_SHARE,
            desc='sizemults as the documented tuple equals the list result; a list argument is left untouched and the call is repeatable'),
 ]
